@@ -111,7 +111,10 @@ fn main() {
 
     // replay files and verdict lines
     let mut lines = Vec::new();
-    if ctx.replay.is_none() {
+    let is_worker = std::env::var("RV_WORKER").is_ok();
+    if is_worker {
+        // a worker subprocess reports through its evidence file only
+    } else if ctx.replay.is_none() {
         let _ = std::fs::create_dir_all(format!("{}/replays", verif_dir));
         for v in &out.violations {
             let path = format!("{}/replays/{}-seed{}-{}-{}.json", verif_dir, prop, seed, v.sub, v.index);
@@ -133,6 +136,9 @@ fn main() {
         }
     }
     for (sig, (count, what)) in &out.known_hits {
+        if is_worker {
+            break;
+        }
         println!("KNOWN-FINDING: property={} {} [{}; {} cases in this run, e.g. {}]", prop, ctx.known.what(&prop, sig), sig, count, what);
     }
     for l in &lines {
@@ -166,6 +172,24 @@ fn main() {
         cov.set("known_findings_listed", ctx.known.to_json(&prop));
         if !out.inconclusive.is_empty() {
             cov.set("inconclusive", J::Arr(out.inconclusive.iter().map(|s| J::s(s)).collect()));
+        }
+        if is_worker {
+            cov.set(
+                "violations_list",
+                J::Arr(
+                    out.violations
+                        .iter()
+                        .map(|v| {
+                            let mut o = J::obj();
+                            o.set("sub", J::s(&v.sub));
+                            o.set("index", J::Int(v.index as i64));
+                            o.set("what", J::s(&v.what));
+                            o.set("case", v.desc.clone());
+                            o
+                        })
+                        .collect(),
+                ),
+            );
         }
         cov.set("hooks", hook_counters());
         for (k, v) in &out.extra {
